@@ -53,7 +53,14 @@ def run(tier, seed):
     for a, o in zip(margs, mouts):
         for f in o["fails"]:
             res.add_violation(f"C12:mounted_concurrent:{f['what']}", f"MountedStores used concurrently ({a[1]} stores): {f['what']}: {f['detail']}", {"mounted": True, "arg": list(a), "failure": f})
-    res.merge_counts(evaluations=len(margs))
+    sargs = [(seed * 6133 + i, ["str", "pathlib"][i % 2], rng.choice([{"kind": "random", "p": 0.2}, {"kind": "relyield", "q": 0.3}, {"kind": "pct", "depth": 3, "est_steps": 1500}]))
+             for i in range(80 if tier == "quick" else 3000)]
+    souts = common.pmap(V.siblings_concurrent, sargs)
+    for a, o in zip(sargs, souts):
+        for f in o["fails"]:
+            res.add_violation(f"C12:siblings_concurrent:{f['what']}", f"sibling file stores ({a[1]} paths) used concurrently: {f['what']}: {f['detail']}", {"siblings": True, "arg": list(a), "failure": f})
+    res.merge_counts(evaluations=len(margs) + len(sargs))
+    res.coverage["sibling_concurrent_executions"] = len(sargs)
     res.coverage["mounted_concurrent_executions"] = len(margs)
     res.coverage["mounted_concurrent_with_preemption"] = sum(1 for o in mouts if o["preemptions"] > 0)
     res.coverage["store_configurations"] = len(cfgs)
@@ -68,6 +75,15 @@ def run(tier, seed):
 
 def replay(w):
     wit = w["witness"]
+    if wit.get("siblings"):
+        a = wit["arg"]
+        o = V.siblings_concurrent((a[0], a[1], a[2]))
+        print(o["fails"])
+        if o["fails"]:
+            print(f"VIOLATION property={PROP} replay=(reproduced)")
+            return 1
+        print("not reproduced")
+        return 0
     if wit.get("mounted"):
         a = wit["arg"]
         o = V.mounted_concurrent((a[0], a[1], a[2]))
